@@ -367,7 +367,10 @@ class HeapBalancerSink(LoadBalancerSink):
     """Close the sink and all underlying nodes immediately."""
     super(HeapBalancerSink, self).Close()
     self._open = False
-    [n.channel.Close() for n in self._heap]
+    # Closing a channel can synchronously complete its outstanding requests,
+    # which re-orders the heap; iterate over a snapshot so that every member
+    # is closed exactly once.
+    [n.channel.Close() for n in list(self._heap)]
 
   @property
   def state(self):
